@@ -445,7 +445,7 @@ impl Engine for C01 {
                     let mut guard = SERVER.lock().unwrap();
                     if guard.as_mut().map(|s| !s.alive()).unwrap_or(true) {
                         *guard = None;
-                        match ServerChild::start(env, 34100 + k) {
+                        match ServerChild::start(env, server_port()) {
                             Ok(s) => *guard = Some(s),
                             Err(_) => {
                                 res.stats.probe("server_proc_unavailable");
